@@ -312,12 +312,29 @@ func (r *Runner) apply(op Op) bool {
 		}
 		return true
 
-	case "alloc", "allocn":
+	case "alloc", "allocn", "allocfill":
 		if r.tx == nil || r.txDirtyUnknown {
 			return false
 		}
 		n := 1
-		if op.K == "allocn" {
+		if op.K == "allocfill" {
+			// allocate the data area up to the brim (A = pages to leave unallocated)
+			if r.Cfg.MaxSize == 0 {
+				return false
+			}
+			snap := txfile.VerifAllocSnapshot(r.F)
+			n = -op.A
+			for _, reg := range snap.DataFree {
+				n += int(reg.Count)
+			}
+			if mp := r.Cfg.MaxSize / ps; int(snap.DataEnd) < mp {
+				n += mp - int(snap.DataEnd)
+			}
+			if n < 1 {
+				return false
+			}
+			op.K = "allocn"
+		} else if op.K == "allocn" {
 			n = op.A
 			if n < 1 {
 				n = 1
@@ -957,6 +974,7 @@ type Gen struct {
 	lowSpace bool
 	NoOverflow bool
 	maint    bool
+	plan     []Op // scripted operations of the running transaction
 }
 
 func NewGen(r *Runner, rng *simsched.Rand, mix string) *Gen {
@@ -997,13 +1015,37 @@ func (g *Gen) Next() Op {
 			g.txLen = rng.Intn(3)
 		}
 		a := 0
-		if r.Cfg.MaxSize > 0 && rng.Intn(10) == 0 && !g.NoOverflow {
+		g.plan = nil
+		if r.Cfg.MaxSize > 0 && rng.Intn(8) == 0 && !g.NoOverflow {
 			a = 1
+			if rng.Intn(2) == 0 {
+				// fill the data area to the brim inside this transaction, flush
+				// overwrites (write-ahead pages from the overflow area), then give
+				// pages at the end of the data area back
+				for i, k := 0, rng.Intn(3); i < k; i++ {
+					g.plan = append(g.plan, Op{K: "setfull", A: rng.Intn(1 << 20)})
+				}
+				g.plan = append(g.plan, Op{K: "allocfill", A: rng.Intn(5) / 3})
+				for i, k := 0, 1+rng.Intn(4); i < k; i++ {
+					g.plan = append(g.plan, Op{K: []string{"setfull", "setfull", "setpart", "free"}[rng.Intn(4)], A: rng.Intn(1 << 20), B: rng.Intn(1 << 12)})
+				}
+				g.plan = append(g.plan, Op{K: []string{"txflush", "pflush"}[rng.Intn(2)], A: rng.Intn(1 << 20)})
+				if rng.Intn(4) > 0 {
+					g.plan = append(g.plan, Op{K: "freetail", A: 1 + rng.Intn(3)})
+				}
+				g.txLen += len(g.plan)
+			}
 		}
 		return Op{K: "begin", A: a}
 	}
 	g.inTxOps++
+	if len(g.plan) > 0 && !r.txDirtyUnknown {
+		op := g.plan[0]
+		g.plan = g.plan[1:]
+		return op
+	}
 	if g.inTxOps > g.txLen || r.txDirtyUnknown {
+		g.plan = nil
 		return g.end()
 	}
 	if g.maint {
